@@ -218,6 +218,8 @@ def oracle_with_meta(meta):
         want_date, want_time = dos_words(edt.year, edt.month, edt.day, edt.hour, edt.minute, edt.second)
         for i, (b, a) in enumerate(zip(before, aft)):
             for k in ("name", "method", "crc", "usize", "data"):
+                if k == "data" and b["data"] is None:
+                    continue                  # the reference reader cannot decode this member of the (damaged) input: nothing to compare with
                 if a[k] != b[k]:
                     fails.append(("member-" + k, "member %d (%r): %s changed" % (i, b["name"], k)))
             if b["unix"] is not None and b["unix"] != 0:
